@@ -659,7 +659,18 @@ def h8_pages(timeout=200, part=None, **kw):
                          {"first page": "two fragments from %d state-dirtying ones" % len(DIRTY), "second page": "%d programs relying on the initial state" % len(NEXT_PAGES)}, timeout, concretize=conc, part=part)
 
 
+def h10_resources(timeout=100, **kw):
+    """the font of each glyph is the one its resource name designates: a Font resource dictionary of three fonts, each inline or indirect, in every order, caching on/off (C06.H5, run here as well)"""
+    from harness import C06
+    r = C06.h5_resources(timeout=timeout)
+    r["harness"] = "H10_resources"
+    return r
+
+
 def replay(harness, inp):
+    if harness == "H10_resources":
+        from harness import C06
+        return C06.replay("H5_resources", inp)
     if harness == "H8_pages":
         return _pages_check(inp["sel"])
     if harness in ("H5_split",):
@@ -830,7 +841,7 @@ def _replay_form(inp, v, g, W, diff):
 def jobs(tier):
     J = [Job("H7_colour:%d" % k, "h7_colour", {"K": 3, "part": [k, 4, 6]}, 300, "H7_colour") for k in range(4)]
     J += [Job("H6_missing2:%d" % k, "h6_missing2", {"part": [k, 2, 5]}, 300, "H6_illtyped") for k in range(2)]
-    J += [Job("H2_spacing", "h2_spacing", {}, 150), Job("H4_form", "h4_form", {}, 200), Job("H5_split", "h5_split", {}, 100), Job("H8_pages", "h8_pages", {}, 200), Job("H9_saverestore:0", "h9_saverestore", {"part": [0, 3, 5]}, 300, "H9_saverestore"), Job("H9_saverestore:1", "h9_saverestore", {"part": [1, 3, 5]}, 300, "H9_saverestore"), Job("H9_saverestore:2", "h9_saverestore", {"part": [2, 3, 5]}, 300, "H9_saverestore"), Job("H6_illtyped", "h6_illtyped", {}, 200)]
+    J += [Job("H2_spacing", "h2_spacing", {}, 150), Job("H4_form", "h4_form", {}, 200), Job("H5_split", "h5_split", {}, 100), Job("H8_pages", "h8_pages", {}, 200), Job("H10_resources", "h10_resources", {}, 100), Job("H9_saverestore:0", "h9_saverestore", {"part": [0, 3, 5]}, 300, "H9_saverestore"), Job("H9_saverestore:1", "h9_saverestore", {"part": [1, 3, 5]}, 300, "H9_saverestore"), Job("H9_saverestore:2", "h9_saverestore", {"part": [2, 3, 5]}, 300, "H9_saverestore"), Job("H6_illtyped", "h6_illtyped", {}, 200)]
     if tier == "quick":
         for f in range(len(OPS)):
             J.append(Job("H1_programs:K2:%s" % OPS[f], "h1_programs", {"K": 2, "first": f}, 200, "H1_programs"))
